@@ -232,13 +232,16 @@ int main(int argc, char** argv)
 				xs.push_back(mu + s * g.uni(-9, 9));
 			T.emit(grid_event("normal", "1e-12", 1e-12, [=](double x) { return PDF_Gauss(x, mu, s); }, [=](double x) { return CDF_Gauss(x, mu, s); }, xs, mu - 40 * s, mu + 40 * s, true));
 			// quantile
-			double p = g.coin(0.5) ? g.logu(1e-14, 0.5) : g.uni(0.001, 0.999);
-			if(g.coin())
-				p = 1.0 - p;
-			intent("Quantile_Gauss");
-			double q = Quantile_Gauss(p, mu, s);
-			// CDF_Gauss = (1 + erf)/2 is itself rounded at about 1e-16 absolute (coarse relative to p in the far lower tail)
-			T.emit({{"e", "Quantile"}, {"ok", CDF_Gauss(q - 1.5e-4 * s, mu, s) - 4 * EPS <= p && p <= CDF_Gauss(q + 1.5e-4 * s, mu, s) + 4 * EPS}});
+			// (every normal case asks for the far lower tail, the far upper tail and the centre: the tails are where a guard of the
+			// inverse error function acts, and a random choice between them can leave one unvisited in a short run)
+			for(int part = 0; part < 3; part++)
+			{
+				double p = part == 0 ? g.logu(1e-14, 0.5) : (part == 1 ? 1.0 - g.logu(1e-14, 0.5) : g.uni(0.001, 0.999));
+				intent("Quantile_Gauss");
+				double q = Quantile_Gauss(p, mu, s);
+				// CDF_Gauss = (1 + erf)/2 is itself rounded at about 1e-16 absolute (coarse relative to p in the far lower tail)
+				T.emit({{"e", "Quantile"}, {"ok", CDF_Gauss(q - 1.5e-4 * s, mu, s) - 4 * EPS <= p && p <= CDF_Gauss(q + 1.5e-4 * s, mu, s) + 4 * EPS}});
+			}
 			// the two-dimensional normal density of independent coordinates is the product of the one-dimensional densities (whose
 			// interval integrals the Grid event above ties to CDF_Gauss): widths differ by up to six decades, points out to 9 sigma
 			{
